@@ -327,6 +327,65 @@ theorem processSeq_sync_async (evs : List Ev) (E : Eng) :
     have h2 := ih (drain false maxChainDepth E [e]).eng
     exact ⟨h2.1, by rw [h2.2]⟩
 
+/-! ## The FIFO loop with depth tags is the level-wise `drain` -/
+
+theorem fifo_nil (sync : Bool) (fuel : Nat) (E : Eng) : fifo sync fuel E [] = { eng := E, sent := [], popped := [] } := by
+  cases fuel <;> rfl
+
+/-- entries at the depth limit are popped and dropped -/
+theorem fifo_dropped (sync : Bool) (q : List Ev) (fuel : Nat) (E : Eng) (d : Nat) (hd : d ≥ maxChainDepth) :
+    fifo sync (q.length + fuel) E (tag d q) = fifo sync fuel E [] := by
+  induction q with
+  | nil => simp [tag]
+  | cons e es ih =>
+    have : (e :: es).length + fuel = (es.length + fuel) + 1 := by simp; omega
+    rw [this]
+    simp only [tag, List.map_cons, fifo, hd, if_true]
+    exact ih
+
+/-- one level: popping the `cur.length` entries of the current level is `level`, and leaves the rest of
+the queue followed by what the level pushed -/
+theorem fifo_level (sync : Bool) (cur : List Ev) (d : Nat) (hd : d < maxChainDepth) (fuel : Nat) (E : Eng)
+    (rest : List (Ev × Nat)) :
+    fifo sync (cur.length + fuel) E (tag d cur ++ rest) =
+      { eng := (fifo sync fuel (level sync E cur).eng (rest ++ tag (d + 1) (level sync E cur).next)).eng
+        sent := (level sync E cur).sent ++ (fifo sync fuel (level sync E cur).eng (rest ++ tag (d + 1) (level sync E cur).next)).sent
+        popped := cur ++ (fifo sync fuel (level sync E cur).eng (rest ++ tag (d + 1) (level sync E cur).next)).popped } := by
+  induction cur generalizing E rest with
+  | nil => simp [tag, level]
+  | cons e es ih =>
+    have h1 : (e :: es).length + fuel = (es.length + fuel) + 1 := by simp; omega
+    have hnd : ¬ d ≥ maxChainDepth := by omega
+    rw [h1]
+    simp only [tag, List.map_cons, List.cons_append, fifo, hnd, if_false, level, List.append_assoc]
+    have := ih (dispatch sync E e (routesOf E.router e.ty)).eng (rest ++ tag (d + 1) (dispatch sync E e (routesOf E.router e.ty)).next)
+    simp only [tag, List.append_assoc] at this
+    rw [this]
+    simp [tag, List.append_assoc, List.map_append]
+
+/-- the FIFO loop with `(event, depth)` entries computes `drain`: for a queue holding the events of one
+depth level `10 - budget`, with any fuel ≥ the number of pops -/
+theorem fifo_eq_drain (sync : Bool) (b : Nat) (hb : b ≤ maxChainDepth) (E : Eng) (q : List Ev) (fuel : Nat) :
+    fifo sync (pops sync b E q + fuel) E (tag (maxChainDepth - b) q) = drain sync b E q := by
+  induction b generalizing E q fuel with
+  | zero =>
+    simp only [pops, drain]
+    rw [fifo_dropped sync q fuel E _ (by simp), fifo_nil]
+  | succ b ih =>
+    simp only [pops, drain]
+    have hd : maxChainDepth - (b + 1) < maxChainDepth := by simp [maxChainDepth] at *; omega
+    have hq : tag (maxChainDepth - (b + 1)) q = tag (maxChainDepth - (b + 1)) q ++ [] := by simp
+    rw [hq, Nat.add_assoc, fifo_level sync q _ hd _ E []]
+    have hs : maxChainDepth - (b + 1) + 1 = maxChainDepth - b := by simp [maxChainDepth] at *; omega
+    simp only [List.nil_append, hs]
+    rw [ih (by omega)]
+
+/-- `process_inner`: the queue starts as `[(event, 0)]` -/
+theorem fifo_processOne (sync : Bool) (E : Eng) (e : Ev) (fuel : Nat) :
+    fifo sync (pops sync maxChainDepth E [e] + fuel) E [(e, 0)] = processOne sync E e := by
+  have := fifo_eq_drain sync maxChainDepth (Nat.le_refl _) E [e] fuel
+  simpa [tag, processOne] using this
+
 /-! ## C23: load / reload -/
 
 /-- stream names are unique -/
